@@ -163,6 +163,7 @@ impl Evaluator {
             image: image.clone(),
             final_round: self.final_round,
             optimize_alpha: self.optimize_alpha,
+            deflater: self.deflater,
         });
         // These clones are only cheap refcounts
         let deadline = self.deadline.clone();
